@@ -249,12 +249,15 @@ func DBLinkAgree(p *core.Prog, r *core.Report) {
 	// writer separator: the Sprintf format with two %s whose operands are .Key/.Value
 	sep := ""
 	for _, c := range core.Calls(w.Body) {
-		if !core.IsCallTo(info, c, "fmt.Sprintf") || len(c.Args) != 3 {
+		args := c.Args
+		if core.IsCallTo(info, c, "fmt.Fprintf") && len(args) == 4 {
+			args = args[1:] // fmt.Fprintf(&b, f, key, value)
+		} else if !core.IsCallTo(info, c, "fmt.Sprintf") || len(args) != 3 {
 			continue
 		}
-		f, ok := core.ConstString(info, c.Args[0])
-		k, okk := ast.Unparen(c.Args[1]).(*ast.SelectorExpr)
-		v, okv := ast.Unparen(c.Args[2]).(*ast.SelectorExpr)
+		f, ok := core.ConstString(info, args[0])
+		k, okk := ast.Unparen(args[1]).(*ast.SelectorExpr)
+		v, okv := ast.Unparen(args[2]).(*ast.SelectorExpr)
 		if !ok || !okk || !okv || k.Sel.Name != "Key" || v.Sel.Name != "Value" {
 			continue
 		}
